@@ -70,6 +70,8 @@ func adam_dense_with_gradient(evalGradient DenseGradientF, x0 DenseFloat64Vector
     if (constraints.Value != nil && !constraints.Value(x2)) {
       return x1, fmt.Errorf("Constraints voilated")
     }
+    // x2 is evaluated and accepted
+    copy(x1, x2)
     // execute hook if available
     if hook.Value != nil && hook.Value(x1, gradient, nil) {
       break
@@ -91,7 +93,6 @@ func adam_dense_with_gradient(evalGradient DenseGradientF, x0 DenseFloat64Vector
     }
     beta1_t *= beta1
     beta2_t *= beta2
-    copy(x1, x2)
   }
   return x1, nil
 }
